@@ -1262,3 +1262,164 @@ theorem gatherFrom_basicTail {α : Type} (leaf : List Int → List α) (A T : Li
           rw [gFix_append_basic j leaf T hT A [], gFix_natural j _ A []]
 
 end MTIndex
+
+namespace MTIndex
+
+theorem length_gFix_single (j : Nat) : ∀ (A : List RItem) (pre : List Int),
+    (gFix j (fun p => [p]) A pre).length = prodNat (keepDims A)
+  | [], _ => rfl
+  | .pick p :: r, pre => by simpa [gFix, keepDims] using length_gFix_single j r (p :: pre)
+  | .keep l :: r, pre => by
+    have := length_flatMap_const (fun p => gFix j (fun p => [p]) r (p :: pre)) (prodNat (keepDims r)) l
+      (fun p _ => length_gFix_single j r (p :: pre))
+    simpa [gFix, keepDims, prodNat_cons] using this
+  | .adv l :: r, pre => by simpa [gFix, keepDims] using length_gFix_single j r (advAt l j :: pre)
+
+theorem length_gIn_single (L : Nat) : ∀ (A : List RItem) (pre : List Int),
+    (gIn L (fun p => [p]) A pre).length = prodNat (shapeIn L A)
+  | [], _ => rfl
+  | .pick p :: r, pre => by simpa [gIn, shapeIn] using length_gIn_single L r (p :: pre)
+  | .keep l :: r, pre => by
+    have := length_flatMap_const (fun p => gIn L (fun p => [p]) r (p :: pre)) (prodNat (shapeIn L r)) l
+      (fun p _ => length_gIn_single L r (p :: pre))
+    simpa [gIn, shapeIn, prodNat_cons] using this
+  | .adv l :: r, pre => by
+    have := length_flatMap_const (fun j => gFix j (fun p => [p]) r (advAt l j :: pre)) (prodNat (keepDims r)) (List.range L)
+      (fun j _ => length_gFix_single j r _)
+    simpa [gIn, shapeIn, prodNat_cons] using this
+
+theorem allBasic_of_advLen : ∀ A : List RItem, advLen A = some none → allBasic A = true
+  | [], _ => rfl
+  | .pick p :: r, h => by simpa [allBasic_cons, RItem.basic] using allBasic_of_advLen r (by simpa [advLen] using h)
+  | .keep l :: r, h => by simpa [allBasic_cons, RItem.basic] using allBasic_of_advLen r (by simpa [advLen] using h)
+  | .adv l :: r, h => by
+    simp only [advLen] at h
+    cases h' : advLen r with
+    | none => simp [h'] at h
+    | some o =>
+      cases o with
+      | none => simp [h'] at h
+      | some L => cases hb : bcastLen l.length L <;> simp [h', hb] at h
+
+/-- the number of selected leading multi-indices is the size of their arrangement -/
+theorem outerOf_length (A : List RItem) (o : Gathered (List Int)) (h : outerOf A = some o) :
+    o.data.length = prodNat o.shape := by
+  unfold outerOf gatherFrom at h
+  cases ha : advLen A with
+  | none => simp [ha] at h
+  | some x =>
+    cases x with
+    | none =>
+      simp only [ha, Option.some.injEq] at h
+      subst h
+      rw [← shapeIn_basic 0 A (allBasic_of_advLen A ha)]
+      exact length_gIn_single 0 A []
+    | some L =>
+      cases hadj : adjacent A with
+      | true =>
+        simp only [ha, hadj, if_true, Option.some.injEq] at h
+        subst h
+        exact length_gIn_single L A []
+      | false =>
+        simp only [ha, hadj, Bool.false_eq_true, if_false, Option.some.injEq] at h
+        subst h
+        have := length_flatMap_const (fun j => gFix j (fun p => [p]) A []) (prodNat (keepDims A)) (List.range L)
+          (fun j _ => length_gFix_single j A [])
+        simpa [prodNat_cons] using this
+
+theorem chunks_outer {α : Type} (S : List Nat) (O : List (List Int)) (hO : O.length = prodNat S) (m : Nat)
+    (f : List Int → List α) (hf : ∀ p, (f p).length = m) :
+    chunks (prodNat S) m (O.flatMap f) = O.map f := by
+  rw [← hO]
+  exact chunks_flatMap f m _ (fun p _ => hf p)
+
+theorem specCov_outer_mvn (inter : Bool) (n t : Int) (S : List Nat) (O : List (List Int)) (hO : O.length = prodNat S)
+    (m : Nat) (f : List Int → List Triple) (hf : ∀ p, (f p).length = m) :
+    specCovOfMean inter n t .mvn ⟨S ++ [m], O.flatMap f⟩ = some ⟨S, O.map fun p => gram inter n t (f p)⟩ := by
+  simp only [specCovOfMean, List.reverse_append, List.reverse_cons, List.reverse_nil, List.nil_append, List.singleton_append,
+    List.reverse_reverse, chunks_outer S O hO m f hf, List.map_map, Function.comp_def]
+
+theorem specCov_outer_mt (inter inter' : Bool) (n t : Int) (S : List Nat) (O : List (List Int)) (hO : O.length = prodNat S)
+    (n' t' : Nat) (f : List Int → List Triple) (hf : ∀ p, (f p).length = n' * t') :
+    specCovOfMean inter n t (.mt inter') ⟨S ++ [n', t'], O.flatMap f⟩
+      = some ⟨S, O.map fun p => gram inter n t (if inter' then f p else colMajor n' t' (f p))⟩ := by
+  simp only [specCovOfMean, List.reverse_append, List.reverse_cons, List.reverse_nil, List.nil_append,
+    List.cons_append, List.reverse_reverse, chunks_outer S O hO (n' * t') f hf, List.map_map, Function.comp_def]
+
+/-- the event grid of two basic (int / slice) components under a leading multi-index -/
+theorem gIn_event_basic (ri ci : RItem) (hr : ri.basic = true) (hc : ci.basic = true) (p : List Int) :
+    gIn 0 (fun pre => [tripleOf pre]) [ri, ci] p
+      = (pairsGrid ri.positions ci.positions).map fun ia => (p.reverse, ia.1, ia.2) := by
+  cases ri <;> cases ci <;>
+    simp_all [RItem.basic, gIn, pairsGrid, RItem.positions, tripleOf, flatMap_single, List.map_flatMap, List.map_map,
+      Function.comp_def]
+
+/-- ARBITRARY batch items (index tensors included), int × slice or slice × int on the event dimensions -/
+theorem spec_outer_one_pick (inter : Bool) (n t : Int) (A : List RItem) (o : Gathered (List Int)) (ho : outerOf A = some o)
+    (ri ci : RItem) (hr : ri.basic = true) (hc : ci.basic = true)
+    (h1 : (ri.dims = [] ∧ ri.positions.length = 1) ∨ (ci.dims = [] ∧ ci.positions.length = 1))
+    (h2 : (ri.dims ++ ci.dims).length = 1)
+    (g : Gathered Triple) (cov : CovRes)
+    (hg : gather (fun pre => [tripleOf pre]) (A ++ [ri, ci]) = some g)
+    (hcov : specCovOfMean inter n t .mvn g = some cov) :
+    ∃ pos, specPositions inter n t false ri.positions ci.positions = some pos ∧
+      cov = ⟨o.shape, o.data.map fun p => gridBlock p.reverse pos⟩ := by
+  have hT : allBasic [ri, ci] = true := by simp [allBasic, hr, hc]
+  rw [gather, gatherFrom_basicTail _ A [ri, ci] hT, ho] at hg
+  simp only [Option.map_some, Option.some.injEq] at hg
+  subst hg
+  have hone : ri.positions.length = 1 ∨ ci.positions.length = 1 := h1.elim (fun h => Or.inl h.2) (fun h => Or.inr h.2)
+  refine ⟨_, specPositions_one_pick inter n t _ _ hone, ?_⟩
+  have hm : ∃ m, keepDims [ri, ci] = [m] ∧ m = ri.positions.length * ci.positions.length := by
+    cases ri <;> cases ci <;> simp_all [RItem.dims, RItem.positions, keepDims, RItem.basic]
+  obtain ⟨m, hm, hmm⟩ := hm
+  simp only [gIn_event_basic ri ci hr hc] at hcov
+  rw [hm, specCov_outer_mvn inter n t o.shape o.data (outerOf_length A o ho) m _
+    (fun p => by simp [length_pairsGrid, hmm])] at hcov
+  cases hcov
+  congr 1
+  apply List.map_congr_left
+  intro p _
+  exact gram_eq_gridBlock inter n t p.reverse _
+
+/-- ARBITRARY batch items (index tensors included), slice × slice on the event dimensions -/
+theorem spec_outer_grid (inter : Bool) (n t : Int) (A : List RItem) (o : Gathered (List Int)) (ho : outerOf A = some o)
+    (R C : List Int) (g : Gathered Triple) (cov : CovRes)
+    (hg : gather (fun pre => [tripleOf pre]) (A ++ [.keep R, .keep C]) = some g)
+    (hcov : specCovOfMean inter n t (.mt inter) g = some cov) :
+    ∃ pos, specPositions inter n t false R C = some pos ∧
+      cov = ⟨o.shape, o.data.map fun p => gridBlock p.reverse pos⟩ := by
+  have hT : allBasic [RItem.keep R, RItem.keep C] = true := rfl
+  rw [gather, gatherFrom_basicTail _ A _ hT, ho] at hg
+  simp only [Option.map_some, Option.some.injEq] at hg
+  subst hg
+  refine ⟨_, specPositions_grid inter n t R C, ?_⟩
+  simp only [gIn_event_basic (.keep R) (.keep C) rfl rfl, keepDims, RItem.positions] at hcov
+  rw [specCov_outer_mt inter inter n t o.shape o.data (outerOf_length A o ho) _ _ _
+    (fun p => by simp [length_pairsGrid])] at hcov
+  cases hcov
+  congr 1
+  apply List.map_congr_left
+  intro p _
+  cases inter
+  · simp only [Bool.false_eq_true, if_false]
+    rw [colMajor_map, gram_eq_gridBlock]
+  · simp only [if_true]
+    exact gram_eq_gridBlock true n t p.reverse _
+
+/-- `cov[batch]` / `cov[batch + (s, s)]` for ARBITRARY batch components (index tensors included) -/
+theorem eval_outer (bs : List Nat) (N : Int) (bidx : List Idx) (ev : EvSel) (A : List RItem) (pos : List Int)
+    (hlen : bidx.length = bs.length)
+    (hres : resolveAll (bs.map fun (b : Nat) => (b : Int)) bidx = some A)
+    (hev : ev = .full ∨ ∃ s, ev = .slice2 s) (hpos : ev.positions N = some pos) :
+    (CovSel.mk bidx ev).eval bs N =
+      (outerOf A).map fun o => ⟨o.shape, o.data.map fun p => gridBlock p.reverse pos⟩ := by
+  unfold CovSel.eval
+  simp only [resolveBatch_full bs bidx hlen, hres]
+  rcases hev with rfl | ⟨s, rfl⟩ <;>
+  · simp only [EvSel.positions, Option.some.injEq] at hpos
+    subst hpos
+    simp only [Option.bind_eq_bind, Option.bind_some, gather, gatherFrom_natural _ A]
+    cases outerOf A <;> simp [batchOf, gridBlock, flatMap_single]
+
+end MTIndex
